@@ -161,6 +161,14 @@ pub fn literals() -> Vec<Lit> {
         ("max", "1.7976931348623157E308"),
         ("min-denormal", "4.9E-324"),
         ("many-digits", "3.14159265358979323846"),
+        ("small-one-digit-mantissa", "2.0E-7"),
+        ("small-one-digit-mantissa", "1.0E-9"),
+        ("small-one-digit-mantissa", "9.0E-6"),
+        ("small-fraction-mantissa", "2.5E-7"),
+        ("large-integral", "1.0E16"),
+        ("large-integral", "1.0E22"),
+        ("large-fraction-mantissa", "1.5E20"),
+        ("integral", "11.0"),
         ("overflow", "1.0E309"),
         ("overflow", "1.0E400"),
         ("overflow-plus", "1.0E+309"),
